@@ -330,7 +330,7 @@ func (r *deserContext) decodeBinary() Item {
 		return NewBigInteger(num)
 	case ArrayT, StructT:
 		size := int(r.ReadVarUint())
-		if size > r.limit {
+		if size < 0 || size > r.limit {
 			r.Err = errTooBigElements
 			return nil
 		}
@@ -345,7 +345,7 @@ func (r *deserContext) decodeBinary() Item {
 		return NewStruct(arr)
 	case MapT:
 		size := int(r.ReadVarUint())
-		if size > r.limit/2 {
+		if size < 0 || size > r.limit/2 {
 			r.Err = errTooBigElements
 			return nil
 		}
